@@ -1,0 +1,231 @@
+//go:build verif
+
+package main
+
+import (
+	"errors"
+	"fmt"
+	"io"
+	"strings"
+
+	"github.com/moorara/algo/grammar"
+	"github.com/moorara/algo/lexer"
+	algoparser "github.com/moorara/algo/parser"
+	"github.com/moorara/algo/parser/lr"
+
+	ebnfparser "github.com/gardenbed/emerge/internal/ebnf/parser"
+)
+
+func init() {
+	register("parse_trace", opParseTrace)
+}
+
+// fakeLexer replays a given token sequence; it ends with io.EOF or with a lexical error.
+type fakeLexer struct {
+	toks   []lexer.Token
+	i      int
+	lexErr bool
+}
+
+func (l *fakeLexer) NextToken() (lexer.Token, error) {
+	if l.i < len(l.toks) {
+		t := l.toks[l.i]
+		l.i++
+		return t, nil
+	}
+	if l.lexErr {
+		return lexer.Token{}, errors.New("lexical error at fake")
+	}
+	return lexer.Token{}, io.EOF
+}
+
+func newParser(req request) (*ebnfparser.Parser, error) {
+	if raw, ok := req["tokens"].([]any); ok {
+		fl := &fakeLexer{lexErr: req["lex_error"] == true}
+		for i, r := range raw {
+			pair, _ := r.([]any)
+			kind, _ := pair[0].(string)
+			lexeme := ""
+			if len(pair) > 1 {
+				lexeme, _ = pair[1].(string)
+			}
+			fl.toks = append(fl.toks, lexer.Token{
+				Terminal: grammar.Terminal(kind),
+				Lexeme:   lexeme,
+				Pos:      lexer.Position{Filename: "f", Offset: i, Line: 1, Column: i + 1},
+			})
+		}
+		return &ebnfparser.Parser{L: fl}, nil
+	}
+	return ebnfparser.New("f", strings.NewReader(str(req, "text")))
+}
+
+func describeErr(err error) map[string]any {
+	if err == nil {
+		return nil
+	}
+	out := map[string]any{"message": err.Error()}
+	var pe *algoparser.ParseError
+	if errors.As(err, &pe) {
+		out["parse_error"] = true
+		out["description"] = pe.Description
+		out["pos"] = []int{pe.Pos.Offset, pe.Pos.Line, pe.Pos.Column}
+		out["pos_zero"] = pe.Pos.IsZero()
+		if pe.Cause != nil {
+			out["cause"] = pe.Cause.Error()
+		}
+	}
+	var inj *injected
+	if errors.As(err, &inj) {
+		out["injected"] = inj.tag
+	}
+	return out
+}
+
+type injected struct{ tag string }
+
+func (e *injected) Error() string { return "injected failure " + e.tag }
+
+func dumpNode(n algoparser.Node) any {
+	switch v := n.(type) {
+	case *algoparser.LeafNode:
+		return []any{"leaf", string(v.Terminal), v.Lexeme, []int{v.Position.Offset, v.Position.Line, v.Position.Column}}
+	case *algoparser.InternalNode:
+		cs := []any{}
+		for _, c := range v.Children {
+			cs = append(cs, dumpNode(c))
+		}
+		body := []string{}
+		for _, s := range v.Production.Body {
+			body = append(body, s.String())
+		}
+		return []any{"node", string(v.NonTerminal), string(v.Production.Head), body, cs}
+	case nil:
+		return nil
+	}
+	return fmt.Sprintf("%T", n)
+}
+
+// opParseTrace runs one of the three drivers and logs every callback.
+func opParseTrace(req request) response {
+	p, err := newParser(req)
+	if err != nil {
+		return response{"outcome": "error", "stage": "new", "error": describeErr(err)}
+	}
+	mode := str(req, "mode")
+	failKind, failIdx := "", -1
+	if fa, ok := req["fail_at"].(map[string]any); ok {
+		failKind, _ = fa["kind"].(string)
+		if f, ok := fa["index"].(float64); ok {
+			failIdx = int(f)
+		}
+	}
+	log := [][]any{}
+	nTok, nProd := 0, 0
+	res := response{"outcome": "ok"}
+
+	switch mode {
+	case "parse", "":
+		err = p.Parse(
+			func(t *lexer.Token) error {
+				log = append(log, []any{"tok", nTok, string(t.Terminal), t.Lexeme, []int{t.Pos.Offset, t.Pos.Line, t.Pos.Column}})
+				nTok++
+				if failKind == "tok" && failIdx == nTok-1 {
+					return &injected{fmt.Sprintf("tok%d", failIdx)}
+				}
+				return nil
+			},
+			func(i int) error {
+				log = append(log, []any{"prod", i})
+				nProd++
+				if failKind == "prod" && failIdx == nProd-1 {
+					return &injected{fmt.Sprintf("prod%d", failIdx)}
+				}
+				return nil
+			},
+		)
+	case "ast":
+		var root algoparser.Node
+		root, err = p.ParseAndBuildAST()
+		if err == nil {
+			res["tree"] = dumpNode(root)
+		} else if root != nil {
+			res["tree_with_error"] = true
+		}
+	case "eval":
+		var v *lr.Value
+		next := 0
+		v, err = p.ParseAndEvaluate(func(i int, rhs []*lr.Value) (any, error) {
+			args := []any{}
+			for _, r := range rhs {
+				var pos any
+				if r.Pos != nil {
+					pos = []int{r.Pos.Offset, r.Pos.Line, r.Pos.Column}
+				}
+				args = append(args, []any{r.Val, pos})
+			}
+			id := fmt.Sprintf("#%d", next)
+			next++
+			log = append(log, []any{"eval", i, args, id})
+			nProd++
+			if failKind == "eval" && failIdx == nProd-1 {
+				return nil, &injected{fmt.Sprintf("eval%d", failIdx)}
+			}
+			return id, nil
+		})
+		if err == nil && v != nil {
+			var pos any
+			if v.Pos != nil {
+				pos = []int{v.Pos.Offset, v.Pos.Line, v.Pos.Column}
+			}
+			res["value"] = []any{v.Val, pos}
+		}
+		if err == nil && v == nil {
+			res["nil_result"] = true
+		}
+	}
+	res["log"] = log
+	res["error"] = describeErr(err)
+	return res
+}
+
+func init() {
+	register("table_probe", opTableProbe)
+}
+
+// opTableProbe evaluates ACTION and GOTO on explicit pairs (translator self-check).
+func opTableProbe(req request) response {
+	acts := [][]any{}
+	if raw, ok := req["action"].([]any); ok {
+		for _, r := range raw {
+			pr, _ := r.([]any)
+			s, _ := pr[0].(float64)
+			a, _ := pr[1].(string)
+			t := grammar.Terminal(a)
+			if a == "$" {
+				t = grammar.Endmarker
+			}
+			typ, param, err := ebnfparser.ACTION(int(s), t)
+			name := "ERROR"
+			switch typ {
+			case lr.SHIFT:
+				name = "SHIFT"
+			case lr.REDUCE:
+				name = "REDUCE"
+			case lr.ACCEPT:
+				name = "ACCEPT"
+			}
+			acts = append(acts, []any{name, param, err != nil})
+		}
+	}
+	gotos := []int{}
+	if raw, ok := req["goto"].([]any); ok {
+		for _, r := range raw {
+			pr, _ := r.([]any)
+			s, _ := pr[0].(float64)
+			A, _ := pr[1].(string)
+			gotos = append(gotos, ebnfparser.GOTO(int(s), grammar.NonTerminal(A)))
+		}
+	}
+	return response{"outcome": "ok", "action": acts, "goto": gotos}
+}
